@@ -26,21 +26,21 @@ def generate(X):
 
     class ScanTr(X.MachTr):
         def special(self, e):
-            if e[0] == "call" and e[1][0] == "path" and len(e[1][1]) == 1 and e[1][1][0] in ("index_words", "len_words", "scan_words", "any_nonzero_below"):
+            if e[0] == "call" and e[1][0] == "path" and len(e[1][1]) == 1 and e[1][1][0] in ("index_words", "len_words", "scan_words", "any_nonzero_below", "last_word", "sum_count_ones", "sum_count_zeros", "all_zero_below"):
                 return e[1][1][0]
-            if e[0] == "mcall" and e[2] in ("trailing_zeros", "trailing_ones") and not e[3]:
+            if e[0] == "mcall" and e[2] in ("trailing_zeros", "trailing_ones", "is_power_of_two") and not e[3]:
                 return e[2]
             return None
 
         def wof(self, e, env):
             s = self.special(e)
-            if s == "index_words":
+            if s in ("index_words", "last_word"):
                 return "W"
-            if s in ("len_words", "scan_words"):
+            if s in ("len_words", "scan_words", "sum_count_ones", "sum_count_zeros"):
                 return "U"
             if s in ("trailing_zeros", "trailing_ones"):
                 return "32"
-            if s == "any_nonzero_below" or (e[0] == "bin" and e[1] == "||"):
+            if s in ("any_nonzero_below", "all_zero_below", "is_power_of_two") or (e[0] == "bin" and e[1] == "||"):
                 return "Bool"
             return super().wof(e, env)
 
@@ -54,6 +54,10 @@ def generate(X):
                 t = self.fresh()
                 lines.append("%slet %s ← index words %s" % (ind, t, a))
                 return t, "W"
+            if s == "last_word":
+                t = self.fresh()
+                lines.append("%slet %s ← words.getLast?" % (ind, t))          # `.last().unwrap()`: none on an empty slice
+                return t, "W"
             if s == "len_words":
                 return "words.length", "U"
             if s == "scan_words":
@@ -61,6 +65,19 @@ def generate(X):
                 self.unify(wc, "W", "scanned word value")
                 k, wk = self.ex(e[2][1], env, lines, ind, "U")
                 return "(scan words %s %s)" % (c, k), "U"
+            if s in ("sum_count_ones", "sum_count_zeros"):
+                t = self.fresh()
+                lines.append("%slet %s ← sum_checked U (%s W) words" % (ind, t, s[4:]))
+                return t, "U"
+            if s == "all_zero_below":
+                a, w = self.ex(e[2][0], env, lines, ind, "U")
+                self.unify(w, "U", "prefix length")
+                t = self.fresh()
+                lines.append("%slet %s ← (if %s ≤ words.length then some ((words.take %s).all (· == 0)) else none)" % (ind, t, a, a))
+                return t, "Bool"
+            if s == "is_power_of_two":
+                a, w = self.ex(e[1], env, lines, ind)
+                return "(is_power_of_two %s)" % a, "Bool"
             if s == "any_nonzero_below":
                 a, w = self.ex(e[2][0], env, lines, ind, "U")
                 self.unify(w, "U", "prefix length")
@@ -110,14 +127,39 @@ def generate(X):
             ""]
     tr = ScanTr("BitScans")
 
-    def one(name, extra=(), ret="usize"):
-        it = X.fn_item(src, name, after=r"mod repr \{", rel=rel)
-        what = "%s (%s:%d)" % (name, rel, it["lines"][0])
+    def one(name, extra=(), ret="usize", arm=None):
+        """`arm = (method, anchor)`: `name` is the `RefLarge(x)` arm of `match self { … }` in that method of `impl TypedReprRef`"""
+        if arm:
+            it = dict(X.fn_item(src, arm[0], after=arm[1], rel=rel))
+            what = "%s, arm RefLarge (%s:%d)" % (arm[0], rel, it["lines"][0])
+            b0 = re.sub(r"//[^\n]*", "", it["body"])
+            if not re.match(r"\{\s*match self \{", b0):
+                raise X.ExtractError("%s: the body is no longer a single `match self { … }`" % what)
+            ms = list(re.finditer(r"\bRefLarge\((\w+)\)\s*=>\s*", b0))
+            if len(ms) != 1:
+                raise X.ExtractError("%s: expected exactly one `RefLarge(x)` arm" % what)
+            var, q = ms[0].group(1), ms[0].end()
+            if b0[q] == "{":
+                txt = b0[q:X.balanced(b0, q)]
+            else:
+                depth, r = 0, q
+                while not (depth == 0 and b0[r] == ","):
+                    depth += b0[r] in "([{"
+                    depth -= b0[r] in ")]}"
+                    if depth < 0:
+                        break
+                    r += 1
+                txt = "{ " + b0[q:r] + " }"
+            it["body"] = re.sub(r"\b%s\b" % re.escape(var), "words", txt)
+            it["params"] = [("words", "&[Word]")] + [(pn, ty) for pn, ty in it["params"] if pn != "self"]
+        else:
+            it = X.fn_item(src, name, after=r"mod repr \{", rel=rel)
+            what = "%s (%s:%d)" % (name, rel, it["lines"][0])
         ps = it["params"]
         if len(ps) != 1 + len(extra) or ps[0][0] != "words" or re.sub(r"\s+", "", ps[0][1]) != "&[Word]" \
-                or [tuple(x) for x in ps[1:]] != [(pn, "usize") for pn in extra] or (it["ret"] or "").strip() != ret:
+                or [tuple(x) for x in ps[1:]] != [(pn, "usize") for pn in extra] or re.sub(r"\s+", "", it["ret"] or "") != ret:
             raise X.ExtractError("%s: signature is no longer `(words: &[Word]%s) -> %s`" % (what, "".join(", %s: usize" % x for x in extra), ret))
-        rw = "U" if ret == "usize" else "Bool"
+        rw = "U" if ret in ("usize", "Option<usize>") else "Bool"
         body = re.sub(r"//[^\n]*", "", it["body"])
         body = re.sub(r"\bwords\[\.\.([^\[\]]+?)\]\.iter\(\)\.any\(\|x\|\s*\*x\s*!=\s*0\)", r"any_nonzero_below(\1)", body)
 
@@ -131,6 +173,15 @@ def generate(X):
         if re.search(r"\b(while|for|loop|break|continue)\b|\+=|-=", body):
             raise X.ExtractError("%s: a loop that is not the recognised scan `let mut i = K; while i < words.len() "
                                  "{ if words[i] != C { break; } i += 1; }`" % what)
+        body = re.sub(r"\bwords\.iter\(\)\.map\(\|w\|\s*w\.count_(ones|zeros)\(\)\s+as\s+usize\)\.sum\(\)", r"sum_count_\1()", body)
+        body = re.sub(r"\bwords\[\.\.([^\[\]]+?)\]\.iter\(\)\.all\(\|x\|\s*\*x\s*==\s*0\)", r"all_zero_below(\1)", body)
+        if ret == "Option<usize>":
+            m_ = re.search(r"\bSome\(", body)
+            if not m_ or len(re.findall(r"\bSome\(", body)) != 1 or re.search(r"\bNone\b", body):
+                raise X.ExtractError("%s: the arm no longer returns exactly one `Some(e)`" % what)
+            q_ = X.balanced(body, m_.end() - 1, "(", ")")
+            body = body[:m_.start()] + "(" + body[m_.end():q_ - 1] + ")" + body[q_:]
+        body = re.sub(r"\bwords\.last\(\)\.unwrap\(\)", "last_word()", body)
         body = re.sub(r"\bwords\.len\(\)", "len_words()", body)
         body = re.sub(r"\bwords\[([^\[\]]+)\]", r"index_words(\1)", body)
         if re.search(r"\bwords\b", body):
@@ -187,7 +238,10 @@ def generate(X):
 
         walk(ast, dict((pn, "U") for pn in extra), "    ")
         sha = hashlib.sha1(re.sub(r"\s+", " ", it["text"]).encode()).hexdigest()[:12]
-        out.append("/-- `bits::repr::%s` — %s:%d-%d, sha1 %s -/" % (name, rel, it["lines"][0], it["lines"][1], sha))
+        if arm:
+            out.append("/-- `TypedReprRef::%s`, arm `RefLarge` — %s:%d-%d, sha1 %s -/" % (arm[0], rel, it["lines"][0], it["lines"][1], sha))
+        else:
+          out.append("/-- `bits::repr::%s` — %s:%d-%d, sha1 %s -/" % (name, rel, it["lines"][0], it["lines"][1], sha))
         out.append("def %s (W : Nat) (U : Nat) (words : List Nat) %s: Option (%s) := do" % (name, "".join("(%s : Nat) " % x for x in extra), "Nat" if rw == "U" else "Bool"))
         out.extend(lines)
         out.append("")
@@ -198,5 +252,28 @@ def generate(X):
     # `are_slice_low_bits_nonzero(words, n) -> bool` (the floor correction of `IBig >> n`): added after the scans so that their text is unchanged
     tr.function(X.fn_item(X.read("integer/src/math.rs"), "ones_word", rel="integer/src/math.rs"), "ones_word", "Dashu.Gen.MathHelpers.ones_word", "", [])
     one("are_slice_low_bits_nonzero", extra=("n",), ret="bool")
+    # the `RefLarge` arms of `TypedReprRef::bit` / `bit_len` (added last: the text above is unchanged)
+    REF = r"impl<'a> TypedReprRef<'a> \{"
+    one("bit_large", extra=("n",), ret="bool", arm=("bit", REF))
+    one("bit_len_large", ret="usize", arm=("bit_len", REF))
+    # definitions used by the arms below (emitted after everything above, whose text is unchanged)
+    out.extend(["/-- `x.count_ones()` / `x.count_zeros()` of a `bits`-wide integer -/",
+                "def count_ones : Nat → Nat → Nat",
+                "  | 0, _ => 0",
+                "  | bits + 1, x => x % 2 + count_ones bits (x / 2)",
+                "def count_zeros (bits x : Nat) : Nat := bits - count_ones bits x",
+                "/-- `words.iter().map(|w| f(w) as usize).sum()` over `usize` (`none`: the sum overflows; the terms are non-negative, so",
+                "    the order of the additions does not matter for whether it does) -/",
+                "def sum_checked (U : Nat) (f : Nat → Nat) : List Nat → Option Nat",
+                "  | [] => some 0",
+                "  | w :: ws => match sum_checked U f ws with",
+                "    | none => none",
+                "    | some s => MachInt.add U (f w) s",
+                "/-- `x.is_power_of_two()` -/",
+                "def is_power_of_two (x : Nat) : Bool := x ≠ 0 && (x &&& (x - 1)) == 0",
+                ""])
+    one("count_ones_large", ret="usize", arm=("count_ones", REF))
+    one("count_zeros_large", ret="Option<usize>", arm=("count_zeros", REF))
+    one("is_power_of_two_large", ret="bool", arm=("is_power_of_two", REF))
     out.append("end Dashu.Gen.BitScans")
     return "\n".join(out) + "\n", info
